@@ -157,8 +157,8 @@ def c05_append_str(e):
 @_ob("append-text", "append(Text) / append_text(Text) / + of a second solver-chosen pre-state, with and without a base style")
 def c05_append_text(e):
     t, ref, n = mk_pre(e)
-    s2 = STRINGS[int(e.mk("string2", 0, len(STRINGS) - 1))]
-    a = int(e.mk("o_start", 0, len(s2)))
+    s2 = ["", "x中", "y\tz", "w\n"][int(e.mk("string2", 0, 3))]
+    a = int(e.mk("o_start", 0, 1))
     b = int(e.mk("o_end", 0, len(s2)))
     base = e.mkbool("base_style")
     spans = [Span(a, b, "u")] if b > a else []
@@ -229,17 +229,15 @@ def c05_split_divide(e):
     return ok and same(t, ref)
 
 
-@_ob("getitem", "t[i] for every index in [-len, len-1] and t[a:b] for a, b in [-5, 5]")
+@_ob("getitem", "t[i] for every index in [-len, len-1] and t[a:b] for a, b in [-4, 4]")
 def c05_getitem(e):
     t, ref, n = mk_pre(e)
     L = len(ref.plain)
     ok = True
-    if L:
-        i = int(e.mk("index", -4, 3))
-        if -L <= i < L:
-            ok = same(t[i], ref.slice(i, i + 1 if i != -1 else None))
-    a = int(e.mk("a", -5, 5))
-    b = int(e.mk("b", -5, 5))
+    for i in range(-L, L):          # every valid index, natively
+        ok = ok and same(t[i], ref.slice(i, i + 1 if i != -1 else None))
+    a = int(e.mk("a", -4, 4))
+    b = int(e.mk("b", -4, 4))
     got = t[a:b]
     return ok and same(got, ref.slice(a, b)) and same(t, ref)
 
